@@ -280,6 +280,7 @@ def _s1(program, res):
         res.fail_at("C15-S1", s.func, f"{s.backend}:{s.pattern}", msg, s.node)
     _s1b_user_chosen_step_names(program, res)
     _s1c_helper_scratch_columns(program, res)
+    _s1d_polars_selector_names(program, res)
     res.expect_count("C15-S1", "internal column-name sites in the executors", n_ex, 15)
     res.expect_count("C15-S1", "generated view-name sites in the SQL generator", n_sql, 9)
 
@@ -356,6 +357,39 @@ def _s1c_helper_scratch_columns(program, res):
                             f"{f.qualname} adds the column {name!r} to the caller's table without checking the caller's columns: a column of that name is overwritten and the "
                             f"scores computed from it are silently different", node)
     res.expect_count("C15-S1", "scratch columns of the solutions helpers", n, 2)
+
+
+def _s1d_polars_selector_names(program, res):
+    """Polars reads a column name of the form `^…$` as a regular expression over the columns, and `*` as all of them, wherever a name is handed to
+    pl.col / select / sort (Polars API: "regular expressions start with ^ and end with $").  The executor hands user column names over raw at dozens of
+    places, so the names have to be refused (or escaped) once, where evaluation starts"""
+    pm = program.modules.get("polars_model")
+    if pm is None:
+        return
+    raw_sites = [c for f in program.all_functions() if f.module is pm for c in ast.walk(f.node)
+                 if isinstance(c, ast.Call) and (dotted_name(c.func) or "") == "pl.col" and c.args and not isinstance(c.args[0], ast.Constant)]
+    ev = program.cls("polars_model", "PolarsModel").methods.get("eval")
+    if ev is None:
+        raise AnalysisError("anchor vanished: PolarsModel.eval")
+    res.analysed(ev)
+    def mentions_selector(fn):
+        tests = [t for t in ast.walk(fn) if isinstance(t, (ast.If, ast.Assert))]
+        for t in tests:
+            txt = unparse(t.test)
+            if ("'^'" in txt or '"^"' in txt or "\\^" in txt) and ("'$'" in txt or '"$"' in txt or "\\$" in txt or "$" in txt):
+                if isinstance(t, ast.Assert) or any(isinstance(x, ast.Raise) for x in ast.walk(t)):
+                    return True
+        return False
+    guarded = mentions_selector(ev.node) or any(
+        mentions_selector(h.node) for c in ast.walk(ev.node) if isinstance(c, ast.Call) and isinstance(c.func, ast.Attribute) and unparse(c.func.value) == "self"
+        for h in [program.cls("polars_model", "PolarsModel").find_method(c.func.attr)] if h is not None)
+    if guarded:
+        res.ok("C15-S1", f"PolarsModel.eval refuses column names Polars would read as selectors (`^…$`, `*`) before any of the {len(raw_sites)} raw pl.col(<name>) sites runs")
+    else:
+        res.fail_at("C15-S1", ev, "polars:selector-syntax-in-column-name",
+                    f"user column names reach pl.col / select / sort raw ({len(raw_sites)} pl.col sites): Polars reads `^x$` as a regular expression and `*` as every column, so a column "
+                    f"renamed to '^x$' makes project sum the column x instead, and order_rows drops it — silently; Pandas and SQL take the name as it is")
+    res.expect_count("C15-S1", "raw pl.col(<name>) sites in the Polars executor", len(raw_sites), 10)
 
 
 def _colname_vars(fnode) -> Set[str]:
